@@ -20,9 +20,9 @@ import (
 )
 
 type Op struct {
-	K    string `json:"k"` // counter gauge timer vhist dhist pass conflict
-	N    int    `json:"n,omitempty"`    // name index
-	S    int    `json:"s,omitempty"`    // scope index
+	K    string `json:"k"`           // counter gauge timer vhist dhist pass conflict
+	N    int    `json:"n,omitempty"` // name index
+	S    int    `json:"s,omitempty"` // scope index
 	I    int64  `json:"i,omitempty"`
 	F    pbt.F  `json:"f,omitempty"`
 	Spec int    `json:"spec,omitempty"`
@@ -30,10 +30,10 @@ type Op struct {
 }
 
 type Case struct {
-	TimerHist bool  `json:"timerHist"` // timers as histograms instead of summaries
-	PanicCB   bool  `json:"panicCB"`   // error callback panics with a sentinel
-	Scopes    []pbt.M `json:"scopes"`  // tag VALUES for keys a,b per scope (same key set), plus optional subscope
-	Ops       []Op  `json:"ops"`
+	TimerHist bool      `json:"timerHist"` // timers as histograms instead of summaries
+	PanicCB   bool      `json:"panicCB"`   // error callback panics with a sentinel
+	Scopes    []pbt.M   `json:"scopes"`    // tag VALUES for keys a,b per scope (same key set), plus optional subscope
+	Ops       []Op      `json:"ops"`
 	VSpecs    [][]pbt.F `json:"vspecs"` // strictly increasing finite value specs (generated)
 	DSpecs    [][]int64 `json:"dspecs"` // strictly increasing duration specs in ns (generated)
 }
@@ -281,7 +281,9 @@ func run(c Case) (pbt.Outcome, error) {
 			for _, b := range c.DSpecs[op.Spec%len(c.DSpecs)] {
 				sp = append(sp, time.Duration(b))
 			}
-			p = try(func() { sc.Histogram(name, tally.DurationBuckets(append([]time.Duration(nil), sp...))).RecordDuration(time.Duration(op.I)) })
+			p = try(func() {
+				sc.Histogram(name, tally.DurationBuckets(append([]time.Duration(nil), sp...))).RecordDuration(time.Duration(op.I))
+			})
 			s := get(name, labels)
 			s.spec, s.dspec = nil, c.DSpecs[op.Spec%len(c.DSpecs)]
 			for _, b := range sp {
@@ -561,6 +563,6 @@ func TestC17(t *testing.T) {
 	pbt.Main(t, pbt.Prop[Case]{
 		ID: "C17", Name: "prometheus",
 		Rule: "rapid-generated histories (1..30 ops) on a tally root whose cached reporter is the Prometheus reporter on a fresh registry (separator '_', Prometheus sanitizer; timers as summaries or histograms; error callback returning or panicking with a sentinel): counters (non-negative deltas), gauges (hostile float bits), timers, value and duration histograms with GENERATED strictly increasing finite specs (1..8 bounds from pools of decimals, huge/tiny magnitudes, one-ulp neighbours; durations ns..11 days incl. millisecond-granular bounds above 1 s) and samples on / one ulp or ns above and below / around the bounds, 1..4 tagged scopes with the same tag keys and different values, report passes, pre-registration of counter/gauge/timer families through the reporter's Register* API with the tag keys in either order (before or after first use; values must be exposed as without it), and conflict programs (a name reused for another kind: counter/gauge, timer/histogram, counter/timer, histogram/counter; or with other tag keys) whose result is then used through every method. Oracle after a final pass: Gather() shows counter == sum, gauge == last update (bits), cumulative bucket counts == #samples <= bound with bounds == spec (durations in seconds) and total == #samples, timer count == #values, one family per name and one series per tag-value combination; conflicts: the rejected registration reaches the error callback, the same request made on the reporter directly returns a non-nil usable metric, no panic other than the sentinel, at any point, and a rejected registration with other tag keys leaves the first, accepted family exposed with its values. Non-trivial: a sample equal to a bound, or >=2 series in a family, or a cross-kind/tag-key conflict. Distinct: FNV-64 of the case JSON.",
-		Gen:  gen, Run: run,
+		Gen:  gen, Run: run, HangAfter: 20 * time.Second,
 	})
 }
